@@ -329,3 +329,28 @@ def replay_edges(report, edges, combos, rng, max_places=None):
     report.cov["edges_replayed"] = report.cov.get("edges_replayed", 0) + n_done
     report.cov["traces_validated_against_impl"] += n_done
     return True
+
+
+def rerun(trace):
+    """Re-execute a recorded trace's operations against the current tree (for --replay)."""
+    rec = HllRecorder(trace["p"], int.from_bytes(bytes(trace["seed"]), "little"), trace["NS"])
+    for e in trace["events"]:
+        s = e.get("s", 1) - 1
+        ev = e["ev"]
+        if ev == "add":
+            rec.add(s, bytes(e["k"]))
+        elif ev in ("update_list",):
+            rec.update_list(s, [bytes(k) for k in e["ks"]])
+        elif ev == "update_dict":
+            rec.update_dict(s, [(bytes(k), 1) for k in e["ks"]])
+        elif ev == "add_ngram":
+            rec.add_ngram(s, bytes(e["key"]), e["n"])
+        elif ev == "update_ngram":
+            rec.update_ngram(s, [bytes(k) for k in e["keys"]], e["n"])
+        elif ev == "merge":
+            rec.merge(s, e["t"] - 1)
+        elif ev == "saveload":
+            rec.saveload(s, e["t"] - 1)
+        elif ev == "query":
+            rec.query(s)
+    return rec.trace()
